@@ -60,6 +60,10 @@ func c18Members() []bMember {
 		{JSON: `{"jsonrpc":"2.0","id":8}`, ID: "8", Kind: "invalid", WantErr: true},
 		{JSON: `{"jsonrpc":"2.0","method":"nope","params":["u"]}`, Kind: "unote"}, // notification for an unknown method: no response, no handler
 		{JSON: `{"jsonrpc":"2.0","id":null,"method":"echo","params":["z"]}`, Kind: "note", Tag: "z"}, // a notification spelled with a null id
+		// invalid for an unknown extra member; the member names are unique markers: an error object is the
+		// member's own, so it never mentions a marker of another member
+		{JSON: `{"jsonrpc":"2.0","id":21,"method":"echo","params":["p"],"extraAAA":1}`, ID: "21", Kind: "invalid", WantErr: true},
+		{JSON: `{"jsonrpc":"2.0","id":22,"method":"echo","params":["q"],"extraBBB":1}`, ID: "22", Kind: "invalid", WantErr: true},
 	}
 }
 
@@ -102,6 +106,20 @@ func judgeBridgeReply(ms []bMember, isArrayBody bool, res httpResult, handlerTag
 				for _, m := range members {
 					if err := wellFormedResponse(m); err != nil {
 						v = append(v, Viol{"C18.R1", err.Error()})
+					}
+					for _, mk := range []string{"extraAAA", "extraBBB"} {
+						if !strings.Contains(string(m.Raw), mk) {
+							continue
+						}
+						own := false
+						for _, pm := range ms {
+							if pm.ID == m.ID() && strings.Contains(pm.JSON, mk) {
+								own = true
+							}
+						}
+						if !own {
+							v = append(v, Viol{"C18.R2", fmt.Sprintf("the response with id %s mentions %q, which occurs only in another member (or another request): not this member's own error object: %s", m.ID(), mk, m.Raw)})
+						}
 					}
 					if m.Has("result") {
 						var tag string
